@@ -113,6 +113,21 @@ def walk(node, pre=None):
             stack.extend(reversed(kids))
 
 
+def walk_outside_closures(node):
+    """Pre-order traversal that does not enter closure bodies (they run when called, not here)."""
+    stack = [node]
+    first = True
+    while stack:
+        n = stack.pop()
+        if isinstance(n, dict):
+            yield n
+            if n.get('k') == 'Closure' and not first:
+                continue
+            first = False
+            kids = [c for _, c in children(n)]
+            stack.extend(reversed(kids))
+
+
 def find(node, pred):
     return [n for n in walk(node) if pred(n)]
 
